@@ -1218,6 +1218,15 @@ func (t *Table) UnmergeCells(row, col int) error {
 		if cell.Properties.GridSpan.Val != "" {
 			fmt.Sscanf(cell.Properties.GridSpan.Val, "%d", &spanCount)
 		}
+		// 跨度不可能超过表格的列数（Word 表格最多 63 列）：读入的文档可能带有任意大的数值，
+		// 不能据此无限制地插入单元格
+		maxSpan := 63
+		if t.Grid != nil && len(t.Grid.Cols) > maxSpan {
+			maxSpan = len(t.Grid.Cols)
+		}
+		if spanCount > maxSpan {
+			spanCount = maxSpan
+		}
 
 		// 插入被合并的单元格
 		for i := 1; i < spanCount; i++ {
